@@ -113,9 +113,36 @@ pub struct Ctx {
     pub qvars: Rc<Vec<PTerm>>,
 }
 
+/// Snapshot of the instrumented user state (and store size) of one search state.
+#[derive(Clone, Debug, Default, PartialEq, Eq)]
+pub struct UserSnap {
+    pub path: Vec<u32>,
+    pub with_calls: u32,
+    pub take_calls: u32,
+    pub ext_calls: u32,
+    pub ext_bindings: u32,
+    pub stored: u32,
+}
+
+pub fn user_snap(state: &PState) -> UserSnap {
+    UserSnap {
+        path: state.user_state.path.clone(),
+        with_calls: state.user_state.with_calls,
+        take_calls: state.user_state.take_calls,
+        ext_calls: state.user_state.ext_calls,
+        ext_bindings: state.user_state.ext_bindings,
+        stored: state.cstore_ref().iter().count() as u32,
+    }
+}
+
 thread_local! {
     /// What `Observe` goals saw, in the order states reached them.
     pub static OBSERVED: std::cell::RefCell<Vec<(u32, T)>> = std::cell::RefCell::new(Vec::new());
+    /// User-state snapshots taken by the same `Observe` goals (parallel to OBSERVED).
+    pub static OBSERVED_USER: std::cell::RefCell<Vec<UserSnap>> = std::cell::RefCell::new(Vec::new());
+    /// Invariant violations seen by `Probe` goals, in any branch (also branches that fail later).
+    pub static PROBE_LOG: std::cell::RefCell<Vec<String>> = std::cell::RefCell::new(Vec::new());
+    pub static PROBES_RUN: std::cell::Cell<u64> = std::cell::Cell::new(0);
 }
 
 pub fn build_conj<K: GK>(gs: &[G], env: &Env, cx: &Ctx) -> K {
@@ -344,6 +371,7 @@ pub fn build<K: GK>(g: &G, env: &Env, cx: &Ctx) -> K {
                 let walked = state.smap_ref().walk_star(&qlist);
                 let t = crate::engine::canon_term(&walked);
                 OBSERVED.with(|o| o.borrow_mut().push((id, t)));
+                OBSERVED_USER.with(|o| o.borrow_mut().push(user_snap(&state)));
                 Stream::unit(Box::new(state))
             }))
         }
@@ -357,19 +385,24 @@ pub fn build<K: GK>(g: &G, env: &Env, cx: &Ctx) -> K {
 /// C22 invariant, evaluated in whatever state reaches a probe (and again at every answer).
 pub fn check_user_invariants(state: &mut PState) {
     state.user_state.probes_run += 1;
-    if state.user_state.probe_violation.is_some() {
-        return;
-    }
+    PROBES_RUN.with(|p| p.set(p.get() + 1));
     let stored = state.cstore_ref().iter().count() as i64;
     let with = state.user_state.with_calls as i64;
     let take = state.user_state.take_calls as i64;
+    let mut found: Option<String> = None;
     if with - take != stored {
-        state.user_state.probe_violation = Some(format!(
+        found = Some(format!(
             "with_constraint calls {} - take_constraint calls {} != {} stored constraints",
             with, take, stored
         ));
     } else if let Some(v) = &state.user_state.ext_violation {
-        state.user_state.probe_violation = Some(v.clone());
+        found = Some(v.clone());
+    }
+    if let Some(v) = found {
+        PROBE_LOG.with(|l| l.borrow_mut().push(v.clone()));
+        if state.user_state.probe_violation.is_none() {
+            state.user_state.probe_violation = Some(v);
+        }
     }
 }
 
